@@ -64,9 +64,9 @@ Check (C12_clog_once :
   forall (c : cfg) (hs : list (list bool)) (ts : list step) (x : bool),
     NoDup (e_fclog (gl (final c hs ts) x))).
 Check (C12_force_close_closes :
-  forall (c : cfg) (s : st) (x : bool) (ts : list step) (z : bool),
+  forall (c : cfg) (s : st) (x : bool) (ts : list step) (z : bool) (b : N),
     e_cmds (hn s x) <> 0 ->
-    let s' := fst (run c s (SCmd x :: ts ++ [SConn z])) in
+    let s' := fst (run c s (SCmd x :: ts ++ [SConn z b])) in
     per s' = per s -> e_alive (cn s' z) = false).
 Check (C12_async_send :
   forall (c : cfg) (x : bool) (s : st) (id t l : N),
@@ -142,24 +142,24 @@ Check (C12_reserve_before_read :
     let s := final c hs ts in
     len (e_nq (hn s x)) + b2n (e_res (cn s x)) <= c_n (ecf c x)).
 Check (C12_no_read_without_slot :
-  forall (c : cfg) (x : bool) (s : st),
+  forall (c : cfg) (x : bool) (b : N) (s : st),
     e_alive (cn s x) = true -> can_reserve c x s = false ->
-    let s' := conn_poll c x s in
+    let s' := conn_poll c x b s in
     carrier (glo s' (negb x)) = carrier (glo s (negb x)) /\ e_nq (hn s' x) = e_nq (hn s x)).
 Check (C12_outbound_progress :
-  forall (c : cfg) (x : bool) (s : st),
-  e_alive (cn s x) = true -> wgate (glo s x) = true ->
+  forall (c : cfg) (x : bool) (b : N) (s : st),
+  e_alive (cn s x) = true -> wgate (glo s x) = true -> qlen s x < b ->
   Forall (fun n => n_len n <= c_max (ecf c x)) (opt_list (e_cur (cn s x)) ++ e_sq (cn s x) ++ e_aq (cn s x)) ->
-  let '(s1, refused) := out_phase c x s in
+  let '(s1, refused) := out_phase c x b s in
   refused = false /\ e_cur (cn s1 x) = None /\ e_sq (cn s1 x) = [] /\ e_aq (cn s1 x) = [] /\ e_sk (cn s1 x) = [] /\
   (Forall (fun n => n_sync n = true) (e_sq (cn s x)) -> Forall (fun n => n_sync n = false) (e_aq (cn s x)) ->
    forall k m, proj k m (carrier (glo s1 x)) = proj k m (pipe s x))).
 Check (C12_inbound_progress :
-  forall (c : cfg) (y : bool) (s : st) (n : notif) (rest : list notif),
-  e_alive (cn s y) = true -> e_shut (cn s y) = false -> killed s = false ->
-  snd (out_phase c y s) = false -> can_reserve c y s = true ->
+  forall (c : cfg) (y : bool) (b : N) (s : st) (n : notif) (rest : list notif),
+  e_alive (cn s y) = true -> e_shut (cn s y) = false -> killed s = false -> qlen s y < b ->
+  snd (out_phase c y b s) = false -> can_reserve c y s = true ->
   rgate (glo s (negb y)) = true -> carrier (glo s (negb y)) = n :: rest -> n_len n <= c_max (ecf c y) ->
-  exists more, e_nq (hn (conn_poll c y s) y) = e_nq (hn s y) ++ n :: more).
+  exists more, e_nq (hn (conn_poll c y b s) y) = e_nq (hn s y) ++ n :: more).
 Check (C12_handle_progress :
   forall (c : cfg) (y : bool) (s : st) (k : N) (n : notif) (q : list notif) (b : N),
   e_evs (hn s y) = [] -> e_peers (hn s y) = Some k -> e_nq (hn s y) = n :: q -> n_per n = k -> b <> 0 ->
